@@ -244,14 +244,14 @@ fn run(ctx: &mut Ctx) {
     }
     // depth 2 with all children composite, and deeper random trees
     let mut rng = ctx.rng.clone();
-    let n = ctx.tier.of(6_000, 150_000);
+    let n = ctx.tier.of(60_000, 600_000);
     for _ in 0..n {
         let (op, ar) = OPS[rng.below(OPS.len())];
         let cs = (0..ar).map(|_| build_d1(&mut ids, &d1[rng.below(d1.len())])).collect();
         let e = mk(op, cs);
         judge(ctx, &e, "depth2-all-composite");
     }
-    let n = ctx.tier.of(6_000, 150_000);
+    let n = ctx.tier.of(60_000, 600_000);
     for _ in 0..n {
         let depth = 3 + rng.below(2);
         let e = random_tree(&mut rng, &mut ids, &d1, depth);
